@@ -52,7 +52,10 @@ class C10(C03):
             for _ in range(rng.randint(0, 4)):
                 k = rng.choice(["all", "build", "launch", "process"])
                 s = scope_json(k) if k != "process" else scope_json("process", b"web")
-                ins.append({"s": s, "b": rng.choice(c04mod.BEHS), "n": b(rng.choice(VARS)), "v": b(rng.choice([b"/opt/y", b"", b":"]))})
+                # (also the layer's own standard directories, named explicitly: implicit and explicit entries both count)
+                ins.append({"s": s, "b": rng.choice(c04mod.BEHS), "n": b(rng.choice(VARS)),
+                            "v": b(rng.choice([b"/opt/y", b"", b":"] + ([] if len(cases) % 4 == 1 else          # (not in the dot_dir runs: they mark the canonical spelling)
+                                                                            [b"$ROOT/r/layer/bin", b"$ROOT/r/layer/lib", b"$ROOT/r/layer/pkgconfig"])))})
             steps = [{"op": "write", "ins": ins}, {"op": "read", "probes": self.probes10()}, {"op": "read_write"},
                      {"op": "read_write"}, {"op": "read", "probes": self.probes10()[3:9]}]
             case = {"init": self.base_tree(extra), "dir": LAYER, "steps": steps, "assign": list(assign),
